@@ -617,6 +617,16 @@ class Engine:
             return float(c)
         raise Unsupported("const kind %s" % ck)
 
+    # external package-level variables whose zero value is an adequate stand-in (empty structs, handles only passed on to models)
+    zero_ok_globals = {
+        "encoding/binary.BigEndian", "encoding/binary.LittleEndian",
+        "github.com/0xPolygon/cdk-contracts-tooling/contracts/fep/etrog/polygonzkevmbridge.PolygonzkevmbridgeMetaData",
+        "github.com/0xPolygon/cdk-contracts-tooling/contracts/pp/l2-sovereign-chain/globalexitrootmanagerl2sovereignchain.Globalexitrootmanagerl2sovereignchainMetaData",
+        "github.com/0xPolygon/cdk-contracts-tooling/contracts/pp/l2-sovereign-chain/polygonzkevmbridgev2.Polygonzkevmbridgev2MetaData",
+        "github.com/prometheus/client_golang/prometheus.DefaultRegisterer", "github.com/russross/meddler.Default", "github.com/russross/meddler.SQLite",
+        "github.com/swaggo/files.Handler", "google.golang.org/grpc/backoff.DefaultConfig",
+    }
+
     def global_ptr(self, st, name):
         key = "g:" + name
         if key not in st.heap or "init_failed" in st.world:
@@ -631,6 +641,9 @@ class Engine:
                 st.heap[key] = ext(self, st)
             else:
                 emb = self.ir.embeds.get(name)
+                if emb is None and not st.lenient and g.get("pkg") not in self.ir.packages and name not in self.zero_ok_globals:
+                    # a package-level variable of a package whose initialiser is not executed: its value is unknown
+                    raise Unsupported("external global %s has no model" % name)
                 st.heap[key] = emb if emb is not None else self.zero(g["t"])
             self.objtype[key] = g["t"]
         return Ptr(key, ())
